@@ -454,7 +454,7 @@ Definition unshared (s : state) (xs : list nat) : Prop :=
   forall L x y, In x xs -> In y xs -> In x (lay s L) -> In y (lay s L) -> x = y.
 
 Definition enum_resize_ok (s : state) (e : nat) (a : Z) : Prop :=
-  (forall x, In x (erefs s e) -> resize_ok s x a) /\ unshared s (erefs s e).
+  (forall x, In x (erefs s e) -> resize_ok s x a) /\ (0 < a -> unshared s (erefs s e)).
 
 Definition ok_op (s : state) (o : op) : Prop :=
   match o with
@@ -1325,22 +1325,33 @@ Section Resize.
   Variables p0 lenG : nat -> Z.
   Hypothesis HI : InvA s.
   Hypothesis Hcur : ok_all s p0 lenG.
-  Hypothesis Hagree : forall L, In x (lay s L) -> forall t, In t (lay s L) -> lenG t = sz s t.
+  (* lenG is the state's size for x; on growth also for everything that shares a layout with x
+     (the space accounting of the code reads the state's sizes) *)
+  Hypothesis HlenX : lenG x = sz s x.
+  Hypothesis Hagree : 0 < a -> forall L, In x (lay s L) -> forall t, In t (lay s L) -> lenG t = sz s t.
   Hypothesis Hnew : 1 <= sz s x + a.
 
   Let len' := upd lenG x (sz s x + a).
 
   (* the layout L holding x, seen with the state's sizes *)
-  Lemma cur_ok_sz : forall L, In x (lay s L) -> ok p0 (sz s) 0 (lsz s L) (lay s L).
+  Lemma cur_ok_sz : 0 < a -> forall L, In x (lay s L) -> ok p0 (sz s) 0 (lsz s L) (lay s L).
   Proof.
-    intros L HL. eapply ok_ext; [|apply (Hcur L)]. intros t Ht. split; [reflexivity|]. symmetry. apply (Hagree L HL t Ht).
+    intros Hpos L HL. eapply ok_ext; [|apply (Hcur L)]. intros t Ht. split; [reflexivity|]. symmetry. apply (Hagree Hpos L HL t Ht).
   Qed.
 
-  Lemma to_len' : forall L p, In x (lay s L) -> ok p (upd (sz s) x (sz s x + a)) 0 (lsz s L) (lay s L) ->
+  Lemma to_len' : 0 < a -> forall L p, In x (lay s L) -> ok p (upd (sz s) x (sz s x + a)) 0 (lsz s L) (lay s L) ->
     ok p len' 0 (lsz s L) (lay s L).
   Proof.
-    intros L p HL Hok. eapply ok_ext; [|exact Hok]. intros t Ht. split; [reflexivity|].
-    unfold len', upd. destruct (Nat.eqb_spec t x); [reflexivity|]. apply (Hagree L HL t Ht).
+    intros Hpos L p HL Hok. eapply ok_ext; [|exact Hok]. intros t Ht. split; [reflexivity|].
+    unfold len', upd. destruct (Nat.eqb_spec t x); [reflexivity|]. apply (Hagree Hpos L HL t Ht).
+  Qed.
+
+  (* shrinking does not read the sizes of the other signals *)
+  Lemma shrink_len' : a < 0 -> forall l lo size p, ok p lenG lo size l -> In x l ->
+    ok (shrink_loop p l x (- a) false) len' lo size l.
+  Proof.
+    intros Hneg l lo size p Hok Hin. unfold len'. replace (sz s x + a) with (lenG x - - a) by lia.
+    apply ok_shrink; try assumption; lia.
   Qed.
 
   Lemma post_same : forall r, (r = VOk -> a = 0 \/ ~ attached s x) -> modify_post s x a p0 lenG (set_rel s p0) r.
@@ -1348,18 +1359,18 @@ Section Resize.
     intros r Hr. exists p0. split; [reflexivity|]. split; [|split; [intros _; exact Hcur|intros y C; congruence]].
     intros E L. eapply ok_ext; [|apply (Hcur L)]. intros t Ht. split; [reflexivity|].
     unfold upd. destruct (Nat.eqb_spec t x) as [->|]; [|reflexivity].
-    destruct (Hr E) as [->|Hfree]; [rewrite (Hagree L Ht x Ht); lia|]. exfalso. apply Hfree. exists L. exact Ht.
+    destruct (Hr E) as [->|Hfree]; [rewrite HlenX; lia|]. exfalso. apply Hfree. exists L. exact Ht.
   Qed.
 
   (* one layout L0 holds x; only its elements move *)
   Lemma post_one : forall L0 p,
     In x (lay s L0) -> (forall L, In x (lay s L) -> L = L0) ->
-    ok p (upd (sz s) x (sz s x + a)) 0 (lsz s L0) (lay s L0) ->
+    ok p len' 0 (lsz s L0) (lay s L0) ->
     (forall y, p y <> p0 y -> In y (lay s L0) /\ forall L, In y (lay s L) -> L = L0) ->
     modify_post s x a p0 lenG (set_rel s p) VOk.
   Proof.
     intros L0 p H0 Honly Hok Hfr. exists p. split; [reflexivity|]. split; [|split; [intros C; congruence|]].
-    - intros _ L. destruct (classic_lid L L0) as [->|NE]; [apply to_len'; assumption|].
+    - intros _ L. destruct (classic_lid L L0) as [->|NE]; [exact Hok|].
       eapply ok_ext; [|apply (Hcur L)]. intros t Ht. split.
       + destruct (Z.eq_dec (p t) (p0 t)) as [E|NE']; [exact E|]. destruct (Hfr t NE') as [_ U]. exfalso. apply NE. apply U. exact Ht.
       + unfold upd. destruct (Nat.eqb_spec t x) as [->|]; [|reflexivity]. exfalso. apply NE. apply Honly. exact Ht.
@@ -1379,20 +1390,20 @@ Section Resize.
     destruct (Z.eqb_spec a 0) as [E0|Ha]; [split; [apply post_same; intros _; left; exact E0|intros; lia]|].
     destruct (in_dec Nat.eq_dec x (glay s m)) as [Hin|Hn].
     - rewrite (Hreg Hin). cbn [negb].
-      pose proof (cur_ok_sz (LM m) Hin) as Hok. cbn [lay lsz] in Hok.
       destruct (followers (glay s m) x) as [fs|] eqn:Hf; [|apply followers_None in Hf; contradiction].
       assert (Hfs : forall y, In y fs -> In y (lay s (LM m)) /\ forall L, In y (lay s L) -> L = LM m).
       { intros y Hy. destruct (followers_In _ _ _ Hf) as [_ B]. split; [apply B; exact Hy|].
         intros L HL. eapply msg_only; [exact HI|apply B; exact Hy|exact HL]. }
       destruct (Z.ltb_spec 0 a) as [Hpos|Hneg].
       + split; [|intros; lia].
+        pose proof (cur_ok_sz Hpos (LM m) Hin) as Hok. cbn [lay lsz] in Hok.
         destruct (do_grow (sz s) p0 (glsize s m) (glay s m) x a) as [e p] eqn:E.
         assert (Ee : e = fst (do_grow (sz s) p0 (glsize s m) (glay s m) x a)) by (rewrite E; reflexivity).
         assert (Ep : p = snd (do_grow (sz s) p0 (glsize s m) (glay s m) x a)) by (rewrite E; reflexivity).
         destruct e as [c|]; cbn [fst snd]; [apply post_same; discriminate|].
         symmetry in Ee. apply do_grow_ok_iff in Ee; [|exact Ha].
         replace (set_rel (set_rel s p0) p) with (set_rel s p) by reflexivity.
-        apply (post_one (LM m)); [exact Hin|exact Honly|rewrite Ep; apply ok_grow; assumption|].
+        apply (post_one (LM m)); [exact Hin|exact Honly|apply (to_len' Hpos (LM m) p Hin); rewrite Ep; apply ok_grow; assumption|].
         intros y Hy. rewrite Ep in Hy. destruct (in_dec Nat.eq_dec y fs) as [Hyf|Hyn]; [apply Hfs; exact Hyf|].
         exfalso. apply Hy. apply do_grow_frame. intros fs' E'. assert (fs' = fs) by congruence. subst fs'. exact Hyn.
       + assert (Hlt : a < 0) by lia. unfold do_shrink. destruct (Z.eqb_spec (- a) 0); [lia|].
@@ -1403,7 +1414,7 @@ Section Resize.
         replace (set_rel (set_rel s p0) (shrink_loop p0 (glay s m) x (- a) false))
           with (set_rel s (shrink_loop p0 (glay s m) x (- a) false)) by reflexivity.
         apply (post_one (LM m)); [exact Hin|exact Honly| |].
-        * replace (sz s x + a) with (sz s x - - a) by lia. apply ok_shrink; try assumption; lia.
+        * apply (shrink_len' Hlt (glay s m) 0 (glsize s m) p0 (Hcur (LM m)) Hin).
         * intros y Hy. destruct (in_dec Nat.eq_dec y fs) as [Hyf|Hyn]; [apply Hfs; exact Hyf|].
           exfalso. apply Hy. apply shrink_loop_false_frame. intros fs' E'. assert (fs' = fs) by congruence. subst fs'. exact Hyn.
     - (* x is not placed in the message: nothing moves *)
@@ -1476,14 +1487,12 @@ Section Resize.
       rewrite (Hfr y Hyn) in Hy. destruct (M3 y Hy) as [g' [Hd Hm]]. exists g'. split; [right; exact Hd|exact Hm]. }
     destruct (in_dec Nat.eq_dec x (gget s u g)) as [Hin|Hn].
     - (* x is in the group *)
-      assert (Hokg : ok p (sz s) 0 gsz (gget s u g)).
-      { eapply ok_ext; [|apply (M2 (LG u g))].
-        - intros t Ht. split; [reflexivity|]. symmetry. apply (Hagree (LG u g) Hin t Ht).
-        - intros [g' [E [Hd _]]]. inversion E; subst. contradiction. }
+      assert (HokG : ok p lenG 0 gsz (gget s u g)).
+      { apply (M2 (LG u g)). intros [g' [E [Hd _]]]. inversion E; subst. contradiction. }
       assert (Hframe_ok : forall p', (forall y, ~ In y (mvg g) -> p' y = p y) ->
-                 ok p' (upd (sz s) x (sz s x + a)) 0 gsz (gget s u g) -> Mixed p' (g :: done)).
+                 ok p' len' 0 gsz (gget s u g) -> Mixed p' (g :: done)).
       { intros p' Hfr Hok'. split; [|split].
-        - intros g' [<-|Hd] Hx'; [apply (to_len' (LG u g) p' Hin Hok')|].
+        - intros g' [<-|Hd] Hx'; [exact Hok'|].
           eapply ok_ext; [|apply (M1 g' Hd Hx')]. intros t Ht. split; [|reflexivity]. apply Hfr.
           intros Hfs. pose proof (mover_only g t Hfs (LG u g') Ht) as E. inversion E; subst. contradiction.
         - intros L HL. assert (HL' : ~ (exists g', L = LG u g' /\ In g' done /\ In x (gget s u g'))).
@@ -1498,16 +1507,18 @@ Section Resize.
         assert (Ee : e = fst (do_grow (sz s) p gsz (gget s u g) x a)) by (rewrite E; reflexivity).
         assert (Ep : p' = snd (do_grow (sz s) p gsz (gget s u g) x a)) by (rewrite E; reflexivity).
         split; [|intros _; exact Hpos]. intros ->. symmetry in Ee. apply do_grow_ok_iff in Ee; [|exact Ha].
+        assert (Hokg : ok p (sz s) 0 gsz (gget s u g)).
+        { eapply ok_ext; [|exact HokG]. intros t Ht. split; [reflexivity|]. symmetry. apply (Hagree Hpos (LG u g) Hin t Ht). }
         apply Hframe_ok.
         * intros y Hy. rewrite Ep. apply do_grow_frame_moved; [exact Hpos|]. rewrite Hmv. exact Hy.
-        * rewrite Ep. apply ok_grow; assumption.
+        * apply (to_len' Hpos (LG u g) p' Hin). rewrite Ep. apply ok_grow; assumption.
       + (* shrink *)
         assert (Hlt : a < 0) by lia. specialize (Hshrink Hlt).
         unfold do_shrink. destruct (Z.eqb_spec (- a) 0); [lia|]. rewrite Hshrink.
         split; [|intros C; congruence]. intros _.
         apply Hframe_ok.
         * intros y Hy. apply (shrink_frame_moved p (sz s)); [exact Hlt|]. rewrite Hmv. exact Hy.
-        * replace (sz s x + a) with (sz s x - - a) by lia. apply ok_shrink; try assumption; lia.
+        * apply (shrink_len' Hlt (gget s u g) 0 gsz p HokG Hin).
     - (* x is not in the group: nothing moves *)
       assert (Hsame : Mixed p (g :: done)).
       { split; [|split].
@@ -1571,7 +1582,7 @@ Section Resize.
     pose proof (M1 g Hd Hx) as Hok.
     eapply ok_len_le; [|exact Hok]. intros t Ht. unfold len', upd.
     destruct (Nat.eqb_spec t x) as [->|NE].
-    - rewrite (Hagree (LG u g) Hx x Hx). pose proof (a_size s HI x). lia.
+    - rewrite HlenX. pose proof (a_size s HI x). lia.
     - pose proof (ok_In _ _ _ _ _ _ Hok Ht) as B. unfold len' in B. rewrite upd_other in B by exact NE. lia.
   Qed.
 
@@ -1597,14 +1608,15 @@ Proof.
 Qed.
 
 Lemma mux_modify_post : forall s x a p0 lenG u, InvA s -> ok_all s p0 lenG ->
-  (forall L, In x (lay s L) -> forall t, In t (lay s L) -> lenG t = sz s t) ->
+  lenG x = sz s x ->
+  (0 < a -> forall L, In x (lay s L) -> forall t, In t (lay s L) -> lenG t = sz s t) ->
   1 <= sz s x + a -> single_moved s p0 x a ->
   (forall L, In x (lay s L) -> exists g, L = LG u g /\ forall gs, groups_of s u x = Some gs -> In g gs) ->
   (forall gs, groups_of s u x = Some gs -> NoDup gs) ->
   modify_post s x a p0 lenG (fst (mux_modify_size (set_rel s p0) u x a)) (snd (mux_modify_size (set_rel s p0) u x a))
   /\ (a < 0 -> memb x (usigs s u) = true -> groups_of s u x <> None -> snd (mux_modify_size (set_rel s p0) u x a) = VOk).
 Proof.
-  intros s x a p0 lenG u H Hcur Hagree Hnew Hsingle Hcont Hnd. unfold mux_modify_size, mux_verify_size.
+  intros s x a p0 lenG u H Hcur HlenX Hagree Hnew Hsingle Hcont Hnd. unfold mux_modify_size, mux_verify_size.
   change (usigs (set_rel s p0) u) with (usigs s u). change (groups_of (set_rel s p0) u x) with (groups_of s u x).
   destruct (Z.eqb_spec a 0) as [E0|Ha]; [split; [apply post_same; try assumption; intros _; left; exact E0|intros; lia]|].
   destruct (memb x (usigs s u)) eqn:Emem; cbn [negb]; [|split; [apply post_same; try assumption; discriminate|intros; discriminate]].
@@ -1618,7 +1630,7 @@ Proof.
   change (gget (set_rel s p0) u) with (gget s u). change (rel (set_rel s p0)) with p0.
   assert (Hshrink : a < 0 -> verify_shrink (sz s) x (- a) = None).
   { intros Hneg. apply verify_shrink_ok; lia. }
-  pose proof (mixed_loop s x a p0 lenG H Hagree Hnew u Ha Hsingle Hshrink gs p0 []
+  pose proof (mixed_loop s x a p0 lenG H HlenX Hagree Hnew u Ha Hsingle Hshrink gs p0 []
                 (mixed_init s x a p0 lenG Hcur u) (Hnd _ eq_refl) (fun g _ Hin => Hin)) as R.
   destruct (mg_pos (sz s) (mux_gsize s u) (gget s u) x a gs p0) as [p' e]. cbn [fst snd].
   destruct R as [R1 R2].
@@ -1645,15 +1657,16 @@ Proof. destruct r; [left; reflexivity|right; discriminate|right; discriminate]. 
 
 (* signal.modifySize under the link hypothesis *)
 Lemma sig_modify_post : forall s x a p0 lenG, InvA s -> ok_all s p0 lenG ->
-  (forall L, In x (lay s L) -> forall t, In t (lay s L) -> lenG t = sz s t) ->
+  lenG x = sz s x ->
+  (0 < a -> forall L, In x (lay s L) -> forall t, In t (lay s L) -> lenG t = sz s t) ->
   1 <= sz s x + a -> link_ok s x -> single_moved s p0 x a ->
   modify_post s x a p0 lenG (fst (sig_modify_size (set_rel s p0) x a)) (snd (sig_modify_size (set_rel s p0) x a))
   /\ (a < 0 -> snd (sig_modify_size (set_rel s p0) x a) = VOk).
 Proof.
-  intros s x a p0 lenG H Hcur Hagree Hnew (Ltop & Lgrp & Lnd & Lfree) Hsingle. unfold sig_modify_size.
+  intros s x a p0 lenG H Hcur HlenX Hagree Hnew (Ltop & Lgrp & Lnd & Lfree) Hsingle. unfold sig_modify_size.
   change (pmux (set_rel s p0) x) with (pmux s x). change (pmsg (set_rel s p0) x) with (pmsg s x).
   destruct (pmux s x) as [u|] eqn:Epu.
-  - destruct (mux_modify_post s x a p0 lenG u H Hcur Hagree Hnew Hsingle) as [A B].
+  - destruct (mux_modify_post s x a p0 lenG u H Hcur HlenX Hagree Hnew Hsingle) as [A B].
     + intros L HL. destruct L as [m|u' g].
       * destruct (Ltop m HL) as [C _]. congruence.
       * destruct (Lgrp u' g HL) as (P & _ & gs & Eg & Hg). assert (u' = u) by congruence. subst u'.
@@ -1667,7 +1680,7 @@ Proof.
         apply NE. apply B; [exact Hneg|exact Mem0|congruence]. }
       destruct (Lfree NA) as [C _]. congruence.
   - destruct (pmsg s x) as [m|] eqn:Epm.
-    + destruct (msg_modify_post s x a p0 lenG H Hcur Hagree Hnew m) as [A B].
+    + destruct (msg_modify_post s x a p0 lenG H Hcur HlenX Hagree Hnew m) as [A B].
       * intros L HL. destruct L as [m'|u g].
         -- destruct (Ltop m' HL) as (_ & P & _). congruence.
         -- destruct (Lgrp u g HL) as (P & _). congruence.
@@ -1734,7 +1747,7 @@ Lemma sig_modify_post0 : forall s x a, InvA s -> 1 <= sz s x + a -> resize_ok s 
   modify_post s x a (rel s) (sz s) (fst (sig_modify_size s x a)) (snd (sig_modify_size s x a)).
 Proof.
   intros s x a H Hnew [Hl Hr].
-  destruct (sig_modify_post s x a (rel s) (sz s) H (a_ok s H) (fun _ _ _ _ => eq_refl) Hnew Hl Hr) as [A _].
+  destruct (sig_modify_post s x a (rel s) (sz s) H (a_ok s H) eq_refl (fun _ _ _ _ _ => eq_refl) Hnew Hl Hr) as [A _].
   rewrite <- (set_rel_id s) in A. exact A.
 Qed.
 
@@ -1830,7 +1843,7 @@ Lemma refs_loop : forall s a old n', InvA s -> a <> 0 -> n' = old + a -> 1 <= n'
   forall R D p,
   (forall y, In y (D ++ R) -> sz s y = old) ->
   ok_all s p (bump s D n') ->
-  NoDup (D ++ R) -> unshared s (D ++ R) ->
+  NoDup (D ++ R) -> (0 < a -> unshared s (D ++ R)) ->
   (forall x, In x R -> resize_ok s x a) ->
   moved_with s p D ->
   exists p', fst (refs_modify (set_rel s p) R a) = set_rel s p'
@@ -1846,21 +1859,27 @@ Proof.
     assert (Hr : sz s r = old) by (apply Hsz; apply in_or_app; right; left; reflexivity).
     assert (HrD : ~ In r D).
     { intros Hin. apply NoDup_remove_2 in Hnd. apply Hnd. apply in_or_app. left. exact Hin. }
-    assert (Hagree : forall L, In r (lay s L) -> forall t, In t (lay s L) -> bump s D n' t = sz s t).
-    { intros L HL t Ht. unfold bump. destruct (memb t D) eqn:Em; [|reflexivity]. apply memb_In in Em.
+    assert (HlenR : bump s D n' r = sz s r).
+    { unfold bump. destruct (memb r D) eqn:Em; [apply memb_In in Em; contradiction|reflexivity]. }
+    assert (Hagree : 0 < a -> forall L, In r (lay s L) -> forall t, In t (lay s L) -> bump s D n' t = sz s t).
+    { intros Hpos L HL t Ht. unfold bump. destruct (memb t D) eqn:Em; [|reflexivity]. apply memb_In in Em.
       assert (t = r).
-      { apply (Hun L t r); [apply in_or_app; left; exact Em|apply in_or_app; right; left; reflexivity|exact Ht|exact HL]. }
+      { apply (Hun Hpos L t r); [apply in_or_app; left; exact Em|apply in_or_app; right; left; reflexivity|exact Ht|exact HL]. }
       subst t. contradiction. }
-    (* the layouts holding r still have the positions of the state *)
-    assert (Hsame : forall L t, In r (lay s L) -> In t (lay s L) -> p t = rel s t).
-    { intros L t HL Ht. destruct (Z.eq_dec (p t) (rel s t)) as [E|NE]; [exact E|]. exfalso.
-      destruct (Hmw t NE) as (d & L' & Hd & HdL & HtL & Hex). pose proof (Hex L Ht) as EL. subst L'.
-      assert (d = r).
-      { apply (Hun L d r); [apply in_or_app; left; exact Hd|apply in_or_app; right; left; reflexivity|exact HdL|exact HL]. }
-      subst d. contradiction. }
     destruct (Hres r (or_introl eq_refl)) as [Hlink Hsm].
-    assert (Hsm' : single_moved s p r a) by (eapply single_moved_ext; [|exact Hsm]; intros L t HL Ht; apply (Hsame L t HL Ht)).
-    destruct (sig_modify_post s r a p (bump s D n') H Hcur Hagree ltac:(lia) Hlink Hsm') as [A B].
+    assert (Hsm' : single_moved s p r a).
+    { destruct (Z.ltb_spec 0 a) as [Hpos|Hneg].
+      - (* growth: the layouts holding r still have the positions of the state *)
+        eapply single_moved_ext; [|exact Hsm]. intros L t HL Ht.
+        destruct (Z.eq_dec (p t) (rel s t)) as [E|NE]; [exact E|]. exfalso.
+        destruct (Hmw t NE) as (d & L' & Hd & HdL & HtL & Hex). pose proof (Hex L Ht) as EL. subst L'.
+        assert (d = r).
+        { apply (Hun Hpos L d r); [apply in_or_app; left; exact Hd|apply in_or_app; right; left; reflexivity|exact HdL|exact HL]. }
+        subst d. contradiction.
+      - (* shrinking pulls every follower, wherever it is *)
+        intros u g y Hy. apply (Hsm u g y). unfold moved_in in *. destruct (a =? 0); [exact Hy|].
+        destruct (followers (gget s u g) r); [|exact Hy]. destruct (Z.ltb_spec 0 a); [lia|exact Hy]. }
+    destruct (sig_modify_post s r a p (bump s D n') H Hcur HlenR Hagree ltac:(lia) Hlink Hsm') as [A B].
     destruct (sig_modify_size (set_rel s p) r a) as [s1 e]. cbn [fst snd] in A, B.
     destruct A as [p1 [-> [Aok [Aerr Amv]]]].
     assert (Hmw1 : moved_with s p1 (D ++ [r])).
